@@ -260,7 +260,9 @@ fn repeat_parent_rule(r: &mut Rng, docs: &mut Vec<Doc>, file: &str, rows: &mut [
 
 /// how many rules hit a record, following the fold (statistics only); `cat_caps`: the captures of
 /// a category match count too (the Viseca adapter keeps them)
-pub fn count_hits(rules: &[config_rule::R], payee0: &str, cat: &str, sym: &str, cat_caps: bool, empty_caps: &mut usize) -> usize {
+/// `dropped_caps`: [hits whose category / secondary_commodity pattern has a payee / code group the
+/// adapter drops, those of them whose element has a payee matcher too]
+pub fn count_hits(rules: &[config_rule::R], payee0: &str, cat: &str, sym: &str, cat_caps: bool, empty_caps: &mut usize, dropped_caps: &mut [usize; 2]) -> usize {
     let mut payee = payee0.to_string();
     let mut hits = 0;
     for rule in rules {
@@ -270,6 +272,7 @@ pub fn count_hits(rules: &[config_rule::R], payee0: &str, cat: &str, sym: &str, 
                 continue;
             }
             let mut cap: Option<String> = None;
+            let mut dropped = false;
             for (f, re) in a {
                 let target = match *f {
                     RF_PAYEE => &payee,
@@ -286,9 +289,17 @@ pub fn count_hits(rules: &[config_rule::R], payee0: &str, cat: &str, sym: &str, 
                             if c.name("payee").map(|m| m.as_str().is_empty()).unwrap_or(false) || c.name("code").map(|m| m.as_str().is_empty()).unwrap_or(false) {
                                 *empty_caps += 1;
                             }
+                        } else if c.name("payee").is_some() || c.name("code").is_some() {
+                            dropped = true;
                         }
                     }
                     None => continue 'or,
+                }
+            }
+            if dropped {
+                dropped_caps[0] += 1;
+                if a.iter().any(|(f, _)| *f == RF_PAYEE) {
+                    dropped_caps[1] += 1;
                 }
             }
             hit = Some(cap);
@@ -343,13 +354,14 @@ pub fn emit(sh: &mut Shards, st: &mut Stats, c: &Case17, tag: &str) {
     let csv = csv_text(&[], &c.header, &c.rows, ',', false);
     let mut max_hits = 0;
     let mut empty_caps = 0usize;
+    let mut dropped_caps = [0usize; 2];
     let imp = match &sel {
         SelObs::Ok(e) => {
             let mut e2 = e.clone();
             e2.format = c.layout.to_spec();
             let rules = rules_for_stats(&e2);
             for row in &c.rows {
-                max_hits = max_hits.max(count_hits(&rules, &row.fields[1], &row.fields[2], &row.fields[3], false, &mut empty_caps));
+                max_hits = max_hits.max(count_hits(&rules, &row.fields[1], &row.fields[2], &row.fields[3], false, &mut empty_caps, &mut dropped_caps));
             }
             run_import(&csv, &e2)
         }
@@ -383,6 +395,14 @@ pub fn emit(sh: &mut Shards, st: &mut Stats, c: &Case17, tag: &str) {
     st.count(&format!("max_rules_hitting_a_record:{}", max_hits.min(4)));
     if empty_caps > 0 && matches!(imp, ImpObs::Ok(..)) {
         st.count("cases_with_a_named_group_matching_empty");
+    }
+    if matches!(imp, ImpObs::Ok(..)) {
+        if dropped_caps[0] > 0 {
+            st.count("csv_cases_where_a_hit_has_a_named_group_in_category_or_secondary_commodity");
+        }
+        if dropped_caps[1] > 0 {
+            st.count("csv_cases_where_a_hit_has_a_named_group_in_category_or_secondary_commodity:with_a_payee_matcher_in_the_element");
+        }
     }
     st.count(match &sel {
         SelObs::None => "select:none",
@@ -909,4 +929,4 @@ pub fn run(o: &Opts) {
     sh.finish(&st);
 }
 
-const RULE: &str = "1-4 YAML documents (random subsets of encoding/account/account_type/operator/commodity/format, 0-4 rewrite rules each with single/OR-list matchers over payee/category/secondary_commodity, capture groups including ones that match the empty string on a record (`Lit(?P<payee>.*)`, `(?P<code>\\d*)`) followed by rules that tell the emptied payee from the original, payee/account/pending/conversion settings; paths drawn as substrings of the file path with frequent equal lengths, as directory prefixes with a trailing '/' where the file path continues the name with other characters (bank/ against bankcard/, bank.old/) or not, and as ./x, x//y, x/./y shapes) through load_from_yaml and ConfigSet::select; then 1-4 CSV records through import::import(Csv) under the selected entry (its `format` replaced by the harness's column layout) and Txn::to_double_entry; one case in five has two layered documents (paths of different length, in either file order) where the longer-path document repeats a rule of the shorter-path one verbatim (now and then with one flag changed) at a later position, after a rule that rewrites the payee, and a record `w2 w1 w3` for which the second occurrence decides the account; plus (a third of the run) Camt053 records: statements of 1-3 entries without TxDtls or with 1-2 TxDtls carrying creditor / ultimate creditor / debtor / ultimate debtor names (inline or inside Pty), account ids (IBAN or Othr), remittance information, AddtlTxInf and AddtlNtryInf, AcctSvcrRef present or not, and 1-2 layered documents with 1-8 rules aimed at the records: single matchers and OR-lists of 1-3 AND elements over 1-3 of those fields and the accumulated payee, the fields written in random order, patterns that match or miss with (?P<payee>...) / (?P<code>...) groups in several fields of one element, two fifths of the rules built as `an element that captures in a field early in RewriteField order and then fails on a later field, followed by an element that matches`, follow-up rules on the payee, now and then a matcher the Camt053 importer refuses; through import::import(IsoCamt053) under the selected entry and to_double_entry, payee / code / counter account / pending mark of every transaction compared with the rule hits and with the model; non-trivial = at least two documents match the path, or at least two rules hit one record (Camt053: the import succeeded and some rule has an OR-list or a multi-field element); distinct by YAML + path + CSV / XML; plus (500 quick / 4000 thorough) Viseca records: statement text of 1-4 records (first line only; with a category line; with a spent amount in CHF / EUR / USD, exchange-rate line, processing-fee line, Air- lines; a fifth ending in ` -`; apostrophe-grouped amounts) and 1-3 layered documents (paths as for CSV over .txt file paths, operator now and then missing) with 0-4 rules each over payee and category - category patterns with (?P<payee>..) / (?P<code>..) groups, which the Viseca adapter keeps, and one that matches the empty category of a record without a category line; now and then a field the adapter refuses - half of the cases with `a rule that rewrites the payee of one record (strips the first word, keeps the last or the first word, or a payee: setting) followed, not always directly, by a rule that matches exactly one of the rewritten payee and the statement's payee`, a sixth with a named group matching the empty string; through load_from_yaml, ConfigSet::select, import::import(Viseca) and to_double_entry; payee / code / counter account / pending mark compared with the rule hits and with the model (Model/ImpVisecaMatch.v); plus (260 quick / 2400 thorough) runs of the built binary `okane import --config CFG SOURCE` in a fresh process (10 s limit) inside a scratch tree the harness builds and removes: CSV (three quarters) or Viseca statement, 2-4 layered documents with different accounts / account types / commodities / column layouts / rules; SOURCE relative to a current directory one or two levels down (`statements/bank.csv` from inside `archive/`), relative with `./`, `x/../`, `sub/../sub`, `../cwd/` or a doubled separator, absolute, relative or absolute through a directory that is a symbolic link into `vault/<name>/`, or itself a symbolic link to a file of another name; directory and link-target names are drawn from the same words as the components of SOURCE and half of the non-base documents take their path from the directories ABOVE the source (component-aligned pieces of the real location, now and then of the scratch directory); the printed ledger is read back with parse_ledger and must be what the rules of the declarative merge for the string AS GIVEN produce (every document whose path occurs in that string, shortest first), `config matching ... not found` and the invalid-config errors likewise; non-trivial (command) = some document's path occurs in only one of the given string and the resolved location";
+const RULE: &str = "1-4 YAML documents (random subsets of encoding/account/account_type/operator/commodity/format, 0-4 rewrite rules each with single/OR-list matchers over payee/category/secondary_commodity, capture groups including ones that match the empty string on a record (`Lit(?P<payee>.*)`, `(?P<code>\\d*)`) followed by rules that tell the emptied payee from the original, two fifths of the category / secondary_commodity patterns with `(?P<payee>...)` / `(?P<code>...)` groups of their own (literal, `.*`, `\\d*`), which the CSV adapter matches and then drops - mostly in elements that have a payee matcher too, payee/account/pending/conversion settings; paths drawn as substrings of the file path with frequent equal lengths, as directory prefixes with a trailing '/' where the file path continues the name with other characters (bank/ against bankcard/, bank.old/) or not, and as ./x, x//y, x/./y shapes) through load_from_yaml and ConfigSet::select; then 1-4 CSV records through import::import(Csv) under the selected entry (its `format` replaced by the harness's column layout) and Txn::to_double_entry; one case in five has two layered documents (paths of different length, in either file order) where the longer-path document repeats a rule of the shorter-path one verbatim (now and then with one flag changed) at a later position, after a rule that rewrites the payee, and a record `w2 w1 w3` for which the second occurrence decides the account; plus (a third of the run) Camt053 records: statements of 1-3 entries without TxDtls or with 1-2 TxDtls carrying creditor / ultimate creditor / debtor / ultimate debtor names (inline or inside Pty), account ids (IBAN or Othr), remittance information, AddtlTxInf and AddtlNtryInf, AcctSvcrRef present or not, and 1-2 layered documents with 1-8 rules aimed at the records: single matchers and OR-lists of 1-3 AND elements over 1-3 of those fields and the accumulated payee, the fields written in random order, patterns that match or miss with (?P<payee>...) / (?P<code>...) groups in several fields of one element, two fifths of the rules built as `an element that captures in a field early in RewriteField order and then fails on a later field, followed by an element that matches`, follow-up rules on the payee, now and then a matcher the Camt053 importer refuses; through import::import(IsoCamt053) under the selected entry and to_double_entry, payee / code / counter account / pending mark of every transaction compared with the rule hits and with the model; non-trivial = at least two documents match the path, or at least two rules hit one record (Camt053: the import succeeded and some rule has an OR-list or a multi-field element); distinct by YAML + path + CSV / XML; plus (500 quick / 4000 thorough) Viseca records: statement text of 1-4 records (first line only; with a category line; with a spent amount in CHF / EUR / USD, exchange-rate line, processing-fee line, Air- lines; a fifth ending in ` -`; apostrophe-grouped amounts) and 1-3 layered documents (paths as for CSV over .txt file paths, operator now and then missing) with 0-4 rules each over payee and category - category patterns with (?P<payee>..) / (?P<code>..) groups, which the Viseca adapter keeps, and one that matches the empty category of a record without a category line; now and then a field the adapter refuses - half of the cases with `a rule that rewrites the payee of one record (strips the first word, keeps the last or the first word, or a payee: setting) followed, not always directly, by a rule that matches exactly one of the rewritten payee and the statement's payee`, a sixth with a named group matching the empty string; through load_from_yaml, ConfigSet::select, import::import(Viseca) and to_double_entry; payee / code / counter account / pending mark compared with the rule hits and with the model (Model/ImpVisecaMatch.v); plus (260 quick / 2400 thorough) runs of the built binary `okane import --config CFG SOURCE` in a fresh process (10 s limit) inside a scratch tree the harness builds and removes: CSV (three quarters) or Viseca statement, 2-4 layered documents with different accounts / account types / commodities / column layouts / rules; SOURCE relative to a current directory one or two levels down (`statements/bank.csv` from inside `archive/`), relative with `./`, `x/../`, `sub/../sub`, `../cwd/` or a doubled separator, absolute, relative or absolute through a directory that is a symbolic link into `vault/<name>/`, or itself a symbolic link to a file of another name; directory and link-target names are drawn from the same words as the components of SOURCE and half of the non-base documents take their path from the directories ABOVE the source (component-aligned pieces of the real location, now and then of the scratch directory); the printed ledger is read back with parse_ledger and must be what the rules of the declarative merge for the string AS GIVEN produce (every document whose path occurs in that string, shortest first), `config matching ... not found` and the invalid-config errors likewise; non-trivial (command) = some document's path occurs in only one of the given string and the resolved location";
